@@ -1130,8 +1130,10 @@ pub fn oracle_c06_c07(w: &World, so: &StepObs, out: &mut StepOut, do6: bool, do7
                     "overflow-sub" if swap_input_branch => "partial-path-slice-worth-more-than-open-notional",
                     "overflow-sub" if partial_path && spot_pnl.abs() * cfg.plr as i128 / di() + partial_penalty > pp.margin.u128() as i128 => "partial-path-spot-pnl-share-plus-penalty-exceeds-margin",
                     "response-parse" if cfg.real_feed => "real-price-feed",
-                    "transfer-failure" if partial_path && vault < partial_penalty => "partial-path-vault-below-penalty",
-                    "transfer-failure" if !partial_path && vault < rem => "vault-below-remaining-margin",
+                    // the vault cannot make the queued transfer: reported as the engine's "transfer failure" or, when the
+                    // token's own refusal is passed through, as its balance underflow
+                    "transfer-failure" | "overflow-sub" | "other" if partial_path && vault < partial_penalty => "partial-path-vault-below-penalty",
+                    "transfer-failure" | "overflow-sub" | "other" if !partial_path && vault < rem => "vault-below-remaining-margin",
                     // dust (both repaired, 906a7b7 / 538cd6a; the names only make a regression readable)
                     "transfer-failure" if !partial_path && p0.out_spot.max(0) as u128 * cfg.liq_fee / du() / 2 == 0 => "dust-fee-rounds-to-zero",
                     "panic" if vo.oracle > 0 && tdiv(vo.oracle * pp.size.value.u128() as i128, di()) == 0 => "dust-oracle-notional-zero",
@@ -1139,6 +1141,7 @@ pub fn oracle_c06_c07(w: &World, so: &StepObs, out: &mut StepOut, do6: bool, do7
                 };
                 // the error text only helps to tell causes apart; a refusal whose text the harness does not know
                 // ("other") in a situation in which a listed finding is certain to refuse the liquidation is that finding
+                let cls = if refine == "partial-path-vault-below-penalty" || refine == "vault-below-remaining-margin" { "transfer-failure".to_string() } else { cls };
                 let (cls, refine) = if refine == "unclassified" && cls == "other" {
                     if cfg.real_feed {
                         ("response-parse".to_string(), "real-price-feed")
